@@ -5,3 +5,8 @@ def bounded(tier, seed, info):
     from bounded.bC10 import run
     from bounded.bHist import run_parser_histories
     return run(tier, seed, info) + run_parser_histories('C10', tier, seed)
+
+
+def lemmas(world, reg, tier):
+    from props.C09 import config_frame_item
+    return [config_frame_item('C10')]
